@@ -22,7 +22,11 @@ load:是否被装载
 */
 class filebuffer64 : public buffer64
 {
+#ifdef WENCRY_VERIF_HBUF_SZ // verification hook: small refill size
+  static const u32_t HBUF_SZ = WENCRY_VERIF_HBUF_SZ;
+#else
   static const u32_t HBUF_SZ = 0x80000;
+#endif
   u8_t b[HBUF_SZ][0x40];
   u8_t extra_entry[0x40];
   bool has_extra;
